@@ -108,7 +108,7 @@ def build_pipeline(case, start_kw=None):
     from streamz import Stream
     from streamz.dataframe import DataFrame
     src = Stream()
-    sdf = DataFrame(src, example=dfc.example_df(case.get("dtype", "float")))
+    sdf = DataFrame(src, example=dfc.example_df(case.get("dtype", "float"), case.get("ex", "row")))
     if case.get("filt") is not None:
         sdf = sdf[sdf.x > case["filt"]]
     out = AGGS[case["agg"]]["build"](sdf)
@@ -213,6 +213,15 @@ def oracle(case, obs):
 
 def check(case):
     """worker entry: run + oracle; never raises"""
+    try:
+        with warnings.catch_warnings():
+            warnings.simplefilter("ignore")
+            build_pipeline(case)
+    except Exception as e:      # noqa: BLE001   building `sdf....agg()` itself failed
+        sig = "C06/raises/%s/%s/at-construction" % (family(case["agg"]), type(e).__name__)
+        return {"crash": None, "obs": None,
+                "findings": [(sig, "%s: constructing the streaming aggregation raised %r (example=%s, filter=%r)"
+                              % (case["agg"], e, case.get("ex", "row"), case.get("filt")), -1)]}
     try:
         obs = run_case(case)
     except Exception as e:      # noqa: BLE001
